@@ -53,6 +53,18 @@ def gen_var(rng, j, exact, allow_bad=False):
 
     bounds = [pair() for _ in range(n)] if per_comp else pair()
     v = {"key": f"p{j}", "values": ["_"] * width if vec else "_", "log": log, "bounds": bounds}
+    if vec and rng.random() < 0.4:
+        v["as_tuple"] = True  # declared through the Python API as a tuple of placeholders
+    if not vec:
+        r = rng.random()
+        if r < 0.4:
+            v["default"] = rng.choice([0, 1, 10])  # the argument's configured value is an int literal (`gain: 1`)
+        elif r < 0.55 and not allow_bad:
+            # a detector field as calibration target: float-valued (temperature) or int-valued (full well capacity)
+            name, lo0, hi0 = rng.choice([("temperature", 100, 300), ("fwc", 1000, 5000)])
+            lo = (lo0 + rng.randrange(0, 8 * (hi0 - lo0) // 2) / 8.0) if exact else rng.uniform(lo0, (lo0 + hi0) / 2)
+            hi = (lo + rng.randrange(1, 8 * (hi0 - lo0) // 2) / 8.0) if exact else rng.uniform(lo + 0.01, hi0)
+            v.update({"key": name, "det": True, "log": False, "bounds": [lo, hi]})
     if allow_bad:
         r = rng.random()
         if r < 0.25 and not vec:
@@ -70,6 +82,24 @@ def gen_var(rng, j, exact, allow_bad=False):
             v["bounds"] = [pair() for _ in range(width + 1)]  # refused by ParameterValues itself
             v["bad"] = "ctor-rows"
     return v
+
+
+def _unique_det(vs, rng, exact):
+    """a detector field is declared at most once"""
+    seen = set()
+    for j, v in enumerate(vs):
+        while v.get("det") and v["key"] in seen:
+            v = vs[j] = gen_var(rng, j, exact)
+        if v.get("det"):
+            seen.add(v["key"])
+    return vs
+
+
+DET_KEYS = {"temperature": "detector.environment.temperature", "fwc": "detector.characteristics.full_well_capacity"}
+
+
+def full_key(v):
+    return DET_KEYS[v["key"]] if v.get("det") else f"pipeline.{GROUP}.{MODEL}.arguments.{v['key']}"
 
 
 def slots_of(v):
@@ -113,7 +143,7 @@ def gen_case(rng, stream):
     exact = stream != "float"
     bad = stream == "malformed"
     n = rng.choice([1, 1, 2, 2, 3, 3, 4])
-    vs = [gen_var(rng, j, exact) for j in range(n)]
+    vs = _unique_det([gen_var(rng, j, exact) for j in range(n)], rng, exact)
     if bad:
         k = rng.randrange(n)
         for _ in range(20):
@@ -140,7 +170,7 @@ def gen_history_case(rng, force):
 def gen_run_case(rng, algo, single=False):
     n = 1 if single else rng.choice([2, 2, 3])
     while True:
-        vs = [gen_var(rng, j, exact=False) for j in range(n)]
+        vs = _unique_det([gen_var(rng, j, exact=False) for j in range(n)], rng, False)
         if single:
             vs[0]["values"], vs[0]["bounds"] = "_", (vs[0]["bounds"][0] if isinstance(vs[0]["bounds"][0], list) else vs[0]["bounds"])
         if sum(slots_of(v) for v in vs) <= 6:
@@ -155,14 +185,16 @@ def _pipeline(vs):
 
     args = {}
     for v in vs:
-        args[v["key"]] = [0.0] * len(v["values"]) if isinstance(v["values"], list) else 0.0
-    return pyx.make_pipeline({GROUP: [{"name": MODEL, "func": "probes.cal_probe", "arguments": args}]})
+        if v.get("det"):
+            continue
+        args[v["key"]] = [0.0] * len(v["values"]) if isinstance(v["values"], list) else v.get("default", 0.0)
+    return pyx.make_pipeline({GROUP: [{"name": MODEL, "func": "probes.cal_probe_det", "arguments": args}]})
 
 
 def _param_values(vs):
     from pyxel.observation import ParameterValues
 
-    return [ParameterValues(key=f"pipeline.{GROUP}.{MODEL}.arguments.{v['key']}", values=v["values"],
+    return [ParameterValues(key=full_key(v), values=tuple(v["values"]) if (v.get("as_tuple") and isinstance(v["values"], list)) else v["values"],
                             logarithmic=v["log"], boundaries=v["bounds"]) for v in vs]
 
 
@@ -212,7 +244,7 @@ def _problem(vs, tmp, pvs=None):
 def _assigned_from_kwargs(vs, kw):
     out = []
     for v in vs:
-        val = kw[v["key"]]
+        val = kw["@" + v["key"]] if v.get("det") else kw[v["key"]]
         if isinstance(val, dict) and "nd" in val:
             out.append([v["key"], {"v": [float.fromhex(x["f"]) if isinstance(x, dict) else float(x) for x in _unhex(val["nd"])]}])
         elif isinstance(val, list):
@@ -244,13 +276,31 @@ def _eval_problem(vs, case, tmp, pvs):
     lb, ub = prob.get_bounds()
     out = {"bounds": [[float(a) for a in lb], [float(a) for a in ub]], "evals": []}
     for x in case["xs"]:
+        try:
+            out["evals"].append(_eval_x(prob, vs, x))
+        except Exception as e:  # noqa: BLE001  (a candidate inside the box must be applicable)
+            out["evals"].append({"error": common.err_kind(e), "msg": str(e)[:200]})
+    if case["xs"]:
+        try:
+            p2 = prob.convert_to_parameters(np.array(case["xs"]))
+            out["reported2d"] = [[float(t) for t in row] for row in p2]
+        except Exception as e:  # noqa: BLE001
+            out["reported2d_error"] = common.err_kind(e)
+    return out
+
+
+def _eval_x(prob, vs, x):
+    import numpy as np
+    import probes
+
+    if True:
         ev = {}
         params = prob.convert_to_parameters(np.array(x))
         ev["reported"] = [float(p) for p in params]
         newp = prob.update_processor(parameter=params, processor=prob.param_processor_list[0])
         upd = []
         for v in vs:
-            val = newp.get(f"pipeline.{GROUP}.{MODEL}.arguments.{v['key']}")
+            val = newp.get(full_key(v))
             upd.append([v["key"], {"v": [float(t) for t in val]} if np.ndim(val) else {"s": float(val)}])
         ev["updated"] = upd
         probes.reset()
@@ -259,11 +309,7 @@ def _eval_problem(vs, case, tmp, pvs):
         ev["n_calls"] = len(calls)
         ev["applied"] = _assigned_from_kwargs(vs, json.loads(calls[-1][1])) if calls else None
         ev["fitness_len"] = len(f)
-        out["evals"].append(ev)
-    if case["xs"]:
-        p2 = prob.convert_to_parameters(np.array(case["xs"]))
-        out["reported2d"] = [[float(t) for t in row] for row in p2]
-    return out
+        return ev
 
 
 def run_direct(case):
@@ -403,7 +449,12 @@ def lean_request(vs, xs):
                 t_log[t] = math.log10(t) if v["values"] == "_" else float(np.log10(np.array([t]))[0])
     for x in xs:
         for c in x:
-            t_pow[c] = float(np.power(10, np.array([c]))[0])
+            with np.errstate(over="ignore"):
+                t_pow[c] = float(np.power(10, np.array([c]))[0])
+            if t_pow[c] != t_pow[c] or abs(t_pow[c]) == float("inf"):
+                # 10**c overflows binary64 (a large *linear* component, e.g. a full well capacity): such a component can
+                # never belong to a logarithmic variable whose boundaries are doubles; the table entry is a sentinel
+                t_pow[c] = -1.0
     return {"vars": lean_vars(vs),
             "log10": [[common.frac(k), common.frac(v)] for k, v in t_log.items()],
             "pow10": [[common.frac(k), common.frac(v)] for k, v in t_pow.items() if v == v and abs(v) != float("inf")],
@@ -489,6 +540,8 @@ def predicate_direct(case, impl):
         if not (close(lb[k], elo, lg) and close(ub[k], ehi, lg)):
             return ("C10:bounds-vector", f"optimiser box component {k} is [{lb[k]!r}, {ub[k]!r}], declared {'log10 of ' if lg else ''}[{lo!r}, {hi!r}]")
     for x, ev in zip(case["xs"], impl["evals"]):
+        if "error" in ev:
+            return ("C10:evaluation-fails", f"decision vector {x} inside the optimiser box cannot be applied/evaluated: {ev['error']} {ev['msg']}")
         exp = expected_applied(vs, x)
         for name in ("applied", "updated"):
             if ev[name] is None or not assigned_close(ev[name], exp, logs):
@@ -559,6 +612,8 @@ def compare_direct(case, impl, ans):
         if len(mb["ok"][side]) != len(impl["bounds"][side]) or not all(close(a, q2f(b), lg) for a, b, lg in zip(impl["bounds"][side], mb["ok"][side], logs_flat)):
             return f"bounds[{side}] differ: impl {impl['bounds'][side]} model {mb['ok'][side]}"
     for ev, mv in zip(impl["evals"], ans["evals"]):
+        if "error" in ev:
+            return f"impl fails on a decision vector ({ev['error']}), model applies it"
         if len(ev["reported"]) != len(mv["reported"]) or not all(close(a, q2f(b), lg) for a, b, lg in zip(ev["reported"], mv["reported"], logs_flat)):
             return f"convert_to_parameters differs: impl {ev['reported']} model {mv['reported']}"
         if "ok" not in mv["applied"]:
@@ -629,6 +684,9 @@ def body(ck: common.Check):
         ck.count("log_vars", sum(1 for v in case["vars"] if v["log"]))
         ck.count("vector_before_scalar", int(any(isinstance(a["values"], list) and b["values"] == "_" for a, b in zip(case["vars"], case["vars"][1:]))))
         ck.count("per_component_bounds", sum(1 for v in case["vars"] if isinstance(v["bounds"][0], list)))
+        ck.count("tuple_declared_vectors", sum(1 for v in case["vars"] if v.get("as_tuple")))
+        ck.count("int_default_scalars", sum(1 for v in case["vars"] if "default" in v))
+        ck.count("detector_field_targets", sum(1 for v in case["vars"] if v.get("det")))
         ck.count("outcome=" + (impl.get("error", "ok") + ("@" + impl["stage"] if "stage" in impl else "")))
         pv = over_rounds(predicate_direct, case, impl)
         if pv:
